@@ -30,21 +30,26 @@ def make(check, self_inputs=False, budget_quick=60, budget_thorough=1500, tasks=
 # property they check so that a failure is never attributed to another property
 EXTRA = {
     "C01": [("t_transcription", "transcription.range", None), ("t_misc", None, "range"), ("t_pattern", "pattern.range", None), ("t_pattern", "pattern.standard_FPR", None),
-            ("t_melody", "melody.evaluate:range", None), ("t_multipitch", "multipitch.metrics/range", None)],
+            ("t_melody", "melody.evaluate:range", None), ("t_multipitch", "multipitch.metrics/range", None),
+            ("t_hierrel", "chord.weighted_accuracy:range", None), ("t_hierrel", "chord.seg:range", None)],
     "C02": [("t_transcription", "transcription.self", None), ("t_transcription", "transcription.self_aor", None),
             ("t_misc", None, "self"), ("t_pattern", "pattern.self", None), ("t_melody", "melody.evaluate:self", None),
-            ("t_multipitch", "multipitch.metrics/self", None)],
+            ("t_multipitch", "multipitch.metrics/self", None),
+            ("t_hierrel", "hierarchy:self", None), ("t_hierrel", "chord.evaluate:self", None),
+            ("t_hierrel", "key:self", None)],
     "C04": [("t_misc", None, "definition"), ("t_melody", "melody.frames:definition", None),
             ("t_transcription", "transcription.definition", None),
             ("t_transcription", "transcription_velocity.definition", None),
             ("t_beat", "beat.p_score:mckinney", None)],
     "C05": [("t_transcription", "transcription.definition", None),
             ("t_transcription", "transcription_velocity.definition", None)],
-    "C06": [("t_transcription", "transcription.swap", None), ("t_misc", None, "swap"), ("t_pattern", "pattern.swap", None), ("t_multipitch", "multipitch.metrics/swap", None)],
+    "C06": [("t_transcription", "transcription.swap", None), ("t_misc", None, "swap"), ("t_pattern", "pattern.swap", None), ("t_multipitch", "multipitch.metrics/swap", None),
+            ("t_hierrel", "chord.seg:swap", None)],
     "C07": [("t_transcription", "transcription.widen", None), ("t_misc", None, "widen"), ("t_melody", "melody.evaluate:tolerance", None),
             ("t_melody", "melody.frames:tolerance", None), ("t_multipitch", "multipitch.metrics/widen", None)],
     "C08": [("t_transcription", "transcription.shift_perm", None), ("t_misc", None, "shift"), ("t_misc", None, "est-swap"), ("t_pattern", "pattern.shift", None),
-            ("t_pattern", "pattern.perm", None), ("t_multipitch", "multipitch.metrics/shift+permute", None)],
+            ("t_pattern", "pattern.perm", None), ("t_multipitch", "multipitch.metrics/shift+permute", None),
+            ("t_hierrel", "hierarchy:relabel", None), ("t_hierrel", "chord.evaluate:shift", None)],
     "C09": [("t_transcription", "transcription.pitch_scale", None), ("t_melody", "melody.evaluate:octave", None), ("t_multipitch", "multipitch.metrics/transpose+octave", None)],
 }
 
